@@ -264,17 +264,18 @@ fn check_case(run: &Run, case: &Case, origin: &'static str, case_seed: Option<u6
                     continue;
                 }
 
+                acc.see("goal_width", if spec.layers.len() > 6 { "more than six layers" } else { "up to six layers" });
                 // O3's independent expectation per layer
                 let veh = &spec.vehicles[target.vehicle];
                 let d_dist = rep_after.distance - rep_before.as_ref().map(|r| r.distance).unwrap_or(0.);
                 let d_dur = rep_after.duration - rep_before.as_ref().map(|r| r.duration).unwrap_or(0.);
                 let expect = |layer: &Layer| match layer {
-                    Layer::Unassigned => -1.,
-                    Layer::Tours => is_new as i32 as f64,
+                    Layer::Unassigned | Layer::Unassigned2 => -1.,
+                    Layer::Tours | Layer::Tours2 => is_new as i32 as f64,
                     Layer::MaxTours => -(is_new as i32 as f64),
                     Layer::Distance => d_dist,
                     Layer::Cost => (if is_new { veh.fixed } else { 0. }) + veh.per_distance * d_dist + veh.per_time * d_dur,
-                    Layer::Value => -job_spec.value,
+                    Layer::Value | Layer::Value2 => -job_spec.value,
                 };
 
                 for (k, layer) in spec.layers.iter().enumerate() {
@@ -418,6 +419,14 @@ fn random_case(case_seed: u64) -> Option<Case> {
             layers.push(l);
         }
     }
+    // wide goals: more than six layers (second instances of three layers under other names, both tour layers)
+    if rng.chance(0.2) {
+        for l in [Layer::Unassigned, Layer::Tours, Layer::MaxTours, Layer::Value, Layer::Unassigned2, Layer::Tours2, Layer::Value2] {
+            if !layers.contains(&l) {
+                layers.push(l);
+            }
+        }
+    }
     rng.shuffle(&mut layers);
     let cfg = GenCfg {
         max_activities: 8,
@@ -481,6 +490,7 @@ fn main() {
     run.floor("layer verdicts", run.evaluations(), 50_000);
     run.floor("grid family cases completed", grid_done, descs.len() as u64);
     run.floor("random cases", run.observed("origin", "random"), 1_000);
+    run.floor("quotes under goals with more than six layers", run.observed("goal_width", "more than six layers"), 1_000);
     for layer in [Layer::Unassigned, Layer::Tours, Layer::MaxTours, Layer::Distance, Layer::Cost, Layer::Value] {
         for target in ["existing-tour", "new-tour"] {
             for job in ["single", "multi"] {
